@@ -155,6 +155,8 @@ def _worker(items, base):
     for size, body in items:
         for placement in ("main", "sub"):
             for varkind in _VARKINDS:
+                if varkind in ("abi", "raw") and "'Ia'" in str(body):
+                    continue    # set_index takes a ScratchVar
                 prog = gen_init.make_program(body, placement, varkind)
                 for cfg in _CFGS:
                     check(prog, body, cfg, out, size, placement, varkind)
@@ -193,6 +195,11 @@ def run(tier):
     for pre in prefixes:
         for k, b in core:
             items.append((k + 3, pre + b))
+    # a third kind of op that names a slot: its INDEX is taken (DynamicScratchVar.set_index) - not a write
+    ig = gen_init.Grammar(["Sa", "La", "Ia"], ["cin"])
+    for k, b in ig.programs(n + 1):
+        if "'Ia'" in str(b) and gen_init.uses_var(b) and b not in seen:
+            items.append((k, b))
     rep.bounds["loop_prefixes"] = len(prefixes)
     rep.bounds["core_alphabet_max_nodes"] = n + 1
     rep.bounds["max_nodes"] = n
